@@ -24,6 +24,8 @@ import traceback
 
 sys.path.insert(0, os.path.dirname(os.path.abspath(__file__)))
 import common  # noqa: E402
+import logging  # noqa: E402
+logging.disable(logging.CRITICAL)   # cellmlmanip logs warnings for every rejected expression
 
 SEARCH_SCALE = 8
 
